@@ -28,6 +28,7 @@ RULE = (
     'matching node is shared or nested inside another matching node.'
 )
 RULE += (' ' + 'Also generated: op reuse -- the same selection object is iterated, the configuration is edited (matching node added and/or removed), and the object is iterated and .set() again; it must reflect the current matches (NodeSelection is documented as declarative).')
+RULE += (' ' + 'Rounds 3-5: tagged unset positional-only parameters with defaults; bound classmethods as callables and selection targets.')
 ASSUMPTIONS = [
     'replace on a selection that matches the root must raise ValueError (documented)',
     'containers may be rebuilt by replace; only Buildables are required to keep identity',
